@@ -464,6 +464,7 @@ def wiener_filter_posterior(
 
     residual_map = get_map(residual_map)
     jit = _parse_jit(jit)
+    draw_linear_kwargs = {} if draw_linear_kwargs is None else draw_linear_kwargs
     position = zeros_like(likelihood.domain) if position is None else position
 
     data = likelihood.likelihood.data
